@@ -587,7 +587,9 @@ def build_query(u):
     b.fn("join_lateral", {"join@": "old(self).join@.push(%s)" % (JE % ("join", "sp_tr_subquery(query, alias.sp_iden())", "true"))}, rules=[make_r_sub("R-ctor", r"TableRef::SubQuery\(", "vtr_subquery(")])
     b.fn("group_by_columns", {"groups@": "old(self).groups@ + sp_colexprs(cols@)"},
          rules=[make_r_sub("R-collect", r"cols\.into_iter\(\)\s*\.map\(\|c\| SimpleExpr::Column\(c\.into_column_ref\(\)\)\)\s*\.collect::<Vec<_>>\(\),?", "vmap_colexprs(cols)")], comment="GROUP BY: appended in call order")
-    LC = "Some(LockClause { r#type: %s, tables: %s, behavior: %s })"
+    r_arr = make_r_sub("R-collect", r"\(\[([a-z_, ().]+)\]\)", r"(vec![\1])")     # an array literal given to an `IntoIterator` parameter: the list of its elements
+    b.fn("group_by_col", {"groups@": "old(self).groups@.push(SimpleExpr::Column(col.sp_column_ref()))"}, rules=[r_arr],
+         proofs={"body-end": "proof { assert(sp_colexprs(seq![col]) =~= seq![SimpleExpr::Column(col.sp_column_ref())]); }"})
     b.fn("lock", {"lock": "(if final(self).lock is Some { Some(LockClause { r#type: type_, tables: final(self).lock->Some_0.tables, behavior: None }) } else { None })"},
          extra="final(self).lock is Some && final(self).lock->Some_0.tables@.len() == 0,")
     b.fn("lock_with_behavior", {"lock": "(if final(self).lock is Some { Some(LockClause { r#type: type_, tables: final(self).lock->Some_0.tables, behavior: Some(behavior) }) } else { None })"},
@@ -803,6 +805,13 @@ pub open spec fn sp_updates(a: Option<OnConflictAction>) -> Seq<OnConflictUpdate
     ACT = "(if final(self).action is Some && final(self).action->Some_0 is Update { Some(OnConflictAction::Update(final(self).action->Some_0->Update_0)) } else { None })"
     b.fn("update_columns", {"action": ACT}, extra="final(self).action is Some && final(self).action->Some_0 is Update && sp_updates(final(self).action) == sp_updates(old(self).action) + sp_upd_cols(columns@),",
          rules=[make_r_sub("R-collect", r"columns\s*\.into_iter\(\)\s*\.map\(\|x\| OnConflictUpdate::Column\(IntoIden::into_iden\(x\)\)\)\s*\.collect\(\)", "vmap_upd_cols(columns)")])
+    r_arr = make_r_sub("R-collect", r"\(\[([a-z_, ().]+)\]\)", r"(vec![\1])")
+    b.fn("update_column", {"action": ACT}, rules=[r_arr],
+         extra="final(self).action is Some && final(self).action->Some_0 is Update && sp_updates(final(self).action) == sp_updates(old(self).action).push(OnConflictUpdate::Column(column.sp_iden())),",
+         proofs={"body-end": "proof { assert(sp_upd_cols(seq![column]) =~= seq![OnConflictUpdate::Column(column.sp_iden())]); }"})
+    b.fn("value", {"action": ACT}, rules=[r_arr],
+         extra="final(self).action is Some && final(self).action->Some_0 is Update && sp_updates(final(self).action) == sp_updates(old(self).action).push(OnConflictUpdate::Expr(col.sp_iden(), value.sp_into())),",
+         proofs={"body-end": "proof { assert(sp_upd_exprs(seq![(col, value.sp_into())]) =~= seq![OnConflictUpdate::Expr(col.sp_iden(), value.sp_into())]); }"})
     b.fn("values", {"action": ACT}, extra="final(self).action is Some && final(self).action->Some_0 is Update && sp_updates(final(self).action) == sp_updates(old(self).action) + sp_upd_exprs(values@),",
          rules=[make_r_sub("R-collect", r"values\s*\.into_iter\(\)\s*\.map\(\|\(c, e\)\| OnConflictUpdate::Expr\(c\.into_iden\(\), e\)\)\s*\.collect\(\)", "vmap_upd_exprs(values)")])
     u.emit("}\n")
